@@ -39,6 +39,15 @@ CHECKS = {
  "C17": dict(engine="certurl", design="5/C17", technique="TLC exhaustive model checking of presence patterns (tla/MC_CertChain) + replay of every pattern with real certificates + TLC trace validation (tla/Trace_CertChain, JDK X.509 parser via overrides)",
    text="TLC enumerates every chain of up to 3/4 certificates x ocsp/sct absent/empty/short (writable iff valid, reader inverts writer, canonical); every pattern and a blob-size grid are written/read by the real code with real P-256/P-384 certificates; output must equal the specified canonical bytes, reading must accept exactly the valid chains and return the bytes of the input; damaged encodings and RFC 6962 SCT lists at the 65535 limits are judged by the same spec.",
    note="Trusted: TLC, JDK CertificateFactory for deliberately corrupted DER (random damage inside a certificate: soundness only), tla/CertChain.tla."),
+ "C03": dict(engine="bundle", design="5/C03", technique="TLC exhaustive model checking of the bundle writer/extractor (tla/MC_Bundle) + replay of every TLC bundle on the real writer/reader + TLC trace validation (tla/Trace_Bundle: Refused, ExpectedRead, Extract of tla/Bundle.tla)",
+   text="TLC enumerates bundles over templates (two URL lengths, bodies 0/1/23/24, complete / incomplete / overlapping / multi-key / inconsistent b1 variant sets, primary, manifest) and checks that written bytes read back to exactly the expected exchanges in index (row-major) order and that refusal happens exactly when it must; all of them plus seeded random bundles are written, read and cycled by the real code, and TLC decides from the recorded bytes: refused iff spec refuses, the file holds exactly the bundle's exchanges, the reader returns what the file holds, the second and third serialisations are byte-identical.",
+   note="Trusted: TLC, tla/Bundle.tla (CDDL of both drafts), tla/StructuredHeader.tla for Variants. Signatures sections are covered in C06."),
+ "C04": dict(engine="bundle", design="5/C04", technique="TLC trace validation (tla/Trace_Bundle: WellFormedBundle, an independent strict parser in tla/Bundle.tla) of every byte string the real writer emits, over the TLC-enumerated and random bundle space and three destination kinds; design-level invariant WrittenIsWellFormed in tla/MC_Bundle",
+   text="Every output of Bundle.WriteTo is parsed by the independent TLA+ parser: magic/version, unique section names with responses last, sections tiling the file up to the trailing length item, every index location delimiting exactly one element of the responses array, canonical CBOR of the file and of nested CBOR, trailing length = size; returned count = bytes accepted by the destination (with / without io.ReaderFrom, bytewise).",
+   note="Trusted: TLC, tla/Bundle.tla, tla/Cbor.tla. Section order other than 'responses' last is not constrained."),
+ "C05": dict(engine="bundle", design="5/C05", technique="TLC-generated adversarial files (tla/MC_BundleRead: field-map mutations of valid bundles with boundary values, evaluated by Extract) replayed on the real reader + TLC trace validation (tla/Trace_Bundle kind rd) incl. byte-level fuzz of real bundles",
+   text="From 4 valid bundles TLC derives every replacement of a section length / index offset / length by 0, exact+-1, file size, 2^32, 2^63-1, 2^63, 2^64-2, 2^64-1, offset+length wrap-around, sections swapped / duplicated / unknown / removed, wrong counts, truncation at every offset; the real bundle.Read must accept exactly when the location semantics is defined (returning exactly that content), refuse when a length points outside the file / overflows / contradicts the table, and never panic; the same for bit flips / insert / delete / truncate of real bundles and random bytes.",
+   note="Trusted: TLC, tla/Bundle.tla. Outcomes depending on net/url, X.509, odd table counts or a missing trailing length are 'either' (only no-panic is demanded)."),
 }
 
 def main():
@@ -55,6 +64,7 @@ def main():
             {"name": "sh", "path": "tla/StructuredHeader.tla tla/MC_SH.tla tla/Trace_SH.tla lib/sh_checks.py harness/cmd/vh/sh.go", "serves_properties": ["C16"], "kind_free_text": "TLA+ reference parsers + TLC + Go harness"},
             {"name": "sxg", "path": "tla/Sxg.tla tla/SxgConsts.tla tla/Url.tla tla/Trace_Sxg.tla lib/sxg_checks.py harness/cmd/vh/sxg*.go", "serves_properties": ["C01", "C02", "C08", "C09"], "kind_free_text": "TLA+ byte-level spec + TLC trace validation with JDK crypto + Go harness"},
             {"name": "certurl", "path": "tla/CertChain.tla tla/MC_CertChain.tla tla/Trace_CertChain.tla lib/cert_checks.py harness/cmd/vh/certurl.go", "serves_properties": ["C17"], "kind_free_text": "TLA+ spec + TLC + Go harness"},
+            {"name": "bundle", "path": "tla/Bundle.tla tla/MC_Bundle.tla tla/MC_BundleRead.tla tla/Trace_Bundle.tla lib/bundle_checks.py harness/cmd/vh/bundle.go", "serves_properties": ["C03", "C04", "C05"], "kind_free_text": "TLA+ format spec + TLC (exhaustive generation, trace validation) + Go harness"},
          ],
          "checks": [], "notes": "See DESIGN.md. Exit 2 of a check means infrastructure failure, never a verdict.", "not_applicable": []}
     for i in ids:
